@@ -489,3 +489,49 @@ func (p *Prog) inLoop(in ssa.Instruction) bool {
 	}
 	return false
 }
+
+// viaCallee lifts an effect predicate across static calls: an instruction
+// performs the effect if it satisfies eff itself, or is a plain call to a
+// package function on every entry→return path of which the effect is
+// performed (recursively, depth ≤ 3). cutFor gives the infeasible edges to
+// ignore inside a callee (may be nil).
+func (p *Prog) viaCallee(eff ipred, cutFor func(fn *ssa.Function) map[edge]bool) ipred {
+	memo := map[*ssa.Function]int{} // 1 in progress, 2 yes, 3 no
+	var lifted ipred
+	var must func(fn *ssa.Function, depth int) bool
+	must = func(fn *ssa.Function, depth int) bool {
+		if fn == nil || fn.Blocks == nil || fn.Pkg != p.RPC || depth > 3 {
+			return false
+		}
+		switch memo[fn] {
+		case 1, 3:
+			return false
+		case 2:
+			return true
+		}
+		memo[fn] = 1
+		var cut map[edge]bool
+		if cutFor != nil {
+			cut = cutFor(fn)
+		}
+		_, _, miss := p.reachCut(fn, nil, isReturnLike, lifted, cut)
+		if miss {
+			memo[fn] = 3
+		} else {
+			memo[fn] = 2
+		}
+		return !miss
+	}
+	lifted = func(in ssa.Instruction) bool {
+		if eff(in) {
+			return true
+		}
+		if c, ok := in.(*ssa.Call); ok {
+			if cal := c.Common().StaticCallee(); cal != nil && cal.Pkg == p.RPC {
+				return must(cal, 1)
+			}
+		}
+		return false
+	}
+	return lifted
+}
